@@ -69,6 +69,10 @@ fn write_mode<T: Write + Seek>(p: &Packet, compressed: bool, out: &mut T) -> sim
 
 pub fn check_packet(p: &RefPacket, case: &dyn Fn() -> Value, all_caps: bool) -> Vec<Finding> {
     let mut out: Vec<Finding> = Vec::new();
+    // a serialisation that failed earlier on this thread must leave no trace in later outputs
+    if (p.id as usize + p.answers.len() + p.additional.len()) % 2 == 0 {
+        super::c08::provoke_failed_builds();
+    }
     let lib = match guarded(|| to_lib(p)) {
         Ok(Ok(l)) => l,
         Ok(Err(e)) => return vec![finding("C04|construct", e, case())],
